@@ -1,14 +1,15 @@
 CONSTANTS
-  Driver = "iour"
-  Shapes <- ShapesCtl
-  MaxSteps = 6
-  MaxCancel = 2
+  Driver = "poll"
+  Shapes <- ShapesVis3
+  MaxSteps = 4
+  MaxCancel = 1
   MaxFeed = 2
-  Eager = FALSE
+  Eager = TRUE
   FixListen = FALSE
   FixFFStream = FALSE
   MutPersDropsCancel = FALSE
   MutNoDropCancel = FALSE
   MutNoWaker = FALSE
-SPECIFICATION Spec
-INVARIANTS ListenCoversPast
+SPECIFICATION GSpec
+INVARIANTS Emit
+VIEW ViewState
